@@ -57,7 +57,10 @@ type evIn struct {
 	Op     string `json:"op"`
 	Ws     []wIn  `json:"ws,omitempty"`
 	Status uint64 `json:"status,omitempty"`
-	Cerr   bool   `json:"cerr,omitempty"` // close / batchclose: the underlying CloseWithStatus returns an error
+	// readfail / rfbatch / arfbatch: the close status the read error carries when it is not the
+	// normal close: 0 none (abrupt), 2 going away, 3 abnormal, 4 internal error, 5 plain ErrConnectionClosed
+	Cls  int  `json:"cls,omitempty"`
+	Cerr bool `json:"cerr,omitempty"` // close / batchclose: the underlying CloseWithStatus returns an error
 	Bs     []byte `json:"bs,omitempty"`
 	Normal bool   `json:"normal,omitempty"`
 }
@@ -176,6 +179,7 @@ type inc struct {
 	rq       []readItem
 	parked   bool
 	released bool
+	wcls     int // close status class carried by this connection's write failures
 }
 
 func newInc(g *gate, cap int, free bool) *inc {
@@ -195,7 +199,7 @@ func (i *inc) Write(bs []byte) error {
 	}
 	if i.cap == 0 {
 		i.mu.Unlock()
-		return fmt.Errorf("scripted: write failure")
+		return statusErr(i.wcls, "write failure") // any close status, the normal one included
 	}
 	if i.cap > 0 {
 		i.cap--
@@ -332,6 +336,7 @@ func (d *dialer) Dial(c transport.DialConfig) (transport.Transport, error) {
 		return nil, fmt.Errorf("scripted: dial failure")
 	}
 	t := newInc(d.g, s.Cap, d.free)
+	t.wcls = len(d.dials) % 6
 	if len(d.incs) == 0 {
 		d.cur = t // Dial: no handshake read
 	} else if s.Hs {
@@ -387,6 +392,33 @@ func waitUntil(cond func() bool) bool {
 			time.Sleep(100 * time.Microsecond)
 		}
 	}
+}
+
+// statusErr: an error of the underlying connection carrying close status class cls
+func statusErr(cls int, what string) error {
+	switch cls {
+	case 1:
+		return fmt.Errorf("scripted %s: %w", what, ierrors.ErrConnectionNormalClose)
+	case 2:
+		return fmt.Errorf("scripted %s: %w", what, ierrors.ErrConnectionGoingAwayClose)
+	case 3:
+		return fmt.Errorf("scripted %s: %w", what, ierrors.ErrConnectionAbnormalClose)
+	case 4:
+		return fmt.Errorf("scripted %s: %w", what, ierrors.ErrConnectionInternalErrorClose)
+	case 5:
+		return fmt.Errorf("scripted %s: %w", what, ierrors.ErrConnectionClosed)
+	}
+	return fmt.Errorf("scripted: %s", what)
+}
+
+func rfTerm(normal bool, cls int) string {
+	if normal {
+		return "ReadFail true 1"
+	}
+	if cls == 1 || cls < 0 || cls > 5 {
+		cls = 0
+	}
+	return fmt.Sprintf("ReadFail false %d", cls)
 }
 
 func optCap(c int) string {
@@ -659,7 +691,7 @@ func runCase(ci *caseIn, src evSource) (res result) {
 		return "OBatch " + coqfmt.List(l)
 	}
 	// a read failure of the current transport, as seen by the read loop
-	readFail := func(normal bool) string {
+	readFail := func(normal bool, cls int) string {
 		if !readerAlive || isDone() {
 			return "OReadFail false"
 		}
@@ -674,7 +706,7 @@ func runCase(ci *caseIn, src evSource) (res result) {
 			readerAlive = false
 			return "OReadFail false"
 		}
-		c.push(readItem{err: fmt.Errorf("scripted: read failure")})
+		c.push(readItem{err: statusErr(cls, "read failure")})
 		var exhausted bool
 		if !waitUntil(func() bool {
 			if isDone() {
@@ -689,7 +721,7 @@ func runCase(ci *caseIn, src evSource) (res result) {
 			}
 			return false
 		}) {
-			abort("the read loop neither redialled nor gave up after a read failure (a redial round does not end)")
+			abort("the read loop neither redialled nor gave up after a read failure that is not the peer's normal close (the reader ended without a redial, or a redial round does not end)")
 			readerAlive = false
 			return "OReadFail false"
 		}
@@ -753,11 +785,11 @@ func runCase(ci *caseIn, src evSource) (res result) {
 			settle(false)
 		case "rfbatch":
 			var rf string
-			rs := batch(e.Ws, func() { rf = readFail(false) })
+			rs := batch(e.Ws, func() { rf = readFail(false, e.Cls) })
 			if rf == "" { // the batch hung before the read failure could be injected
 				rf = "OReadFail false"
 			}
-			emit("ReadFail false", rf)
+			emit(rfTerm(false, e.Cls), rf)
 			emit("Batch "+wsTerm(e.Ws), wrTerm(rs, "rfbatch"))
 			settle(false)
 		case "arfbatch":
@@ -817,7 +849,7 @@ func runCase(ci *caseIn, src evSource) (res result) {
 				}
 				nd := func() int { d.mu.Lock(); defer d.mu.Unlock(); return len(d.dials) }()
 				if ok && readerAlive && !isDone() && roundSucceeds(ci, nd) {
-					rf = readFail(false)
+					rf = readFail(false, e.Cls)
 				}
 			}
 			g.setPost(true)
@@ -847,7 +879,7 @@ func runCase(ci *caseIn, src evSource) (res result) {
 			}
 			if rf != "" {
 				emit("Batch "+wsTerm(ws[:1]), wrTerm(out[:1], "arfbatch"))
-				emit("ReadFail false", rf)
+				emit(rfTerm(false, e.Cls), rf)
 				if len(ws) > 1 {
 					emit("Batch "+wsTerm(ws[1:]), wrTerm(out[1:], "arfbatch"))
 				}
@@ -921,7 +953,7 @@ func runCase(ci *caseIn, src evSource) (res result) {
 			emit("Deliver "+coqfmt.Bytes(e.Bs), out)
 			settle(live && !isPing)
 		case "readfail":
-			emit("ReadFail "+coqfmt.Bool(e.Normal), readFail(e.Normal))
+			emit(rfTerm(e.Normal, e.Cls), readFail(e.Normal, e.Cls))
 			settle(false)
 		case "readstart":
 			if pend == nil {
@@ -1144,9 +1176,9 @@ func genCase(r *rng.R) (*caseIn, evSource, string) {
 			case x < 29:
 				return evIn{Op: "batch", Ws: mkWs(1 + r.Intn(4))}, true
 			case x < 34:
-				return evIn{Op: "arfbatch", Ws: mkWs(1 + r.Intn(3))}, true
+				return evIn{Op: "arfbatch", Ws: mkWs(1 + r.Intn(3)), Cls: []int{0, 2, 3, 4, 5}[r.Intn(5)]}, true
 			case x < 40:
-				return evIn{Op: "rfbatch", Ws: mkWs(1 + r.Intn(3))}, true
+				return evIn{Op: "rfbatch", Ws: mkWs(1 + r.Intn(3)), Cls: []int{0, 2, 3, 4, 5}[r.Intn(5)]}, true
 			case x < 52:
 				msg++
 				bs := []byte{byte(100 + msg)}
@@ -1157,7 +1189,7 @@ func genCase(r *rng.R) (*caseIn, evSource, string) {
 			case x < 62:
 				return evIn{Op: "deliver", Bs: []byte("ping")}, true
 			case x < 74:
-				return evIn{Op: "readfail", Normal: r.Chance(1, 7)}, true
+				return evIn{Op: "readfail", Normal: r.Chance(1, 7), Cls: []int{0, 2, 3, 4, 5}[r.Intn(5)]}, true
 			case x < 84:
 				return evIn{Op: "readstart"}, true
 			case x < 93:
@@ -1217,6 +1249,7 @@ func genBigQueue(n int, add func(*caseIn, evSource, string)) {
 
 func genExhaustive(depth int, add func(*caseIn, evSource, string)) {
 	alphabet := []dialSpec{{}, {Ok: true, Hs: false, Cap: -1}, {Ok: true, Hs: true, Cap: -1}, {Ok: true, Hs: true, Cap: 1}}
+	exhN := 0
 	var rec func(prefix []dialSpec)
 	rec = func(prefix []dialSpec) {
 		for _, cap0 := range []int{1, 2} {
@@ -1225,6 +1258,7 @@ func genExhaustive(depth int, add func(*caseIn, evSource, string)) {
 					if tail && len(prefix) != depth {
 						continue
 					}
+					exhN++
 					ci := &caseIn{Budget: budget, TidSet: cap0 == 1, TailHs: tail}
 					ci.Script = append([]dialSpec{{Ok: true, Cap: cap0}}, prefix...)
 					seq := []evIn{
@@ -1233,8 +1267,8 @@ func genExhaustive(depth int, add func(*caseIn, evSource, string)) {
 						{Op: "readstart"},
 						{Op: "deliver", Bs: []byte{101}},
 						{Op: "readjoin"},
-						{Op: "arfbatch", Ws: []wIn{{2, []byte{2, 9}}, {3, []byte{3, 9}}}},
-						{Op: "readfail"},
+						{Op: "arfbatch", Ws: []wIn{{2, []byte{2, 9}}, {3, []byte{3, 9}}}, Cls: []int{2, 3, 4, 5, 0}[(exhN+1)%5]},
+						{Op: "readfail", Cls: []int{2, 3, 4, 5, 0}[exhN%5]},
 						{Op: "batch", Ws: []wIn{{1, []byte{1, 2}}, {4, []byte{4, 1}}}},
 						{Op: "readstart"},
 						{Op: "readjoin"},
@@ -1390,7 +1424,7 @@ func main() {
 			w.Count("sig:" + rs.sig)
 		}
 	}
-	rule := "big-queue: 6 cases with 1030-1100 concurrently pending writers (1 in flight, 1024 queued, the rest blocked on the full queue) ended by Close / write-side / read-side budget exhaustion, every Write must return an error; exhaustive: every script of <= d dial outcomes after the first connection over {dial error, connect + handshake read fails, connect, connect with write capacity 1}, first connection of capacity 1 or 2, budget 1 or 2, both behaviours once the script is used up (dial errors / connections whose handshake fails for ever), around the fixed history: 3 queued writes of 3 writers, ping, pending Read resolved by a delivery, read failure, 2 more writes, Read, Close, write and Read after Close. random: budget 1-3 (0 = default 30 rarely), scripts of 1-11 outcomes incl. failing Dial, 5-16 events out of: batches of 1-4 concurrently pending writes of distinct writers (queue order fixed through the queue-length accessor), read failure while a write is in flight before / after the underlying connection recorded it (accept -> read failure -> redial completes -> Write returns nil), Close while a write is in flight with more queued, deliveries (data, ping, pong), read failures (abnormal and normal close), Read started / joined (pending across other events), Close (1/3 with the underlying CloseWithStatus returning an error, 1/5 of the cases with every plain underlying Close returning an error); then Close, write, Read; 1/4 of the cases with the read loop free to race the write loop's redial. non-trivial = some dial/handshake failure or write capacity in the script, a redial caused by it, and at least one write; distinct = distinct Coq case terms"
+	rule := "big-queue: 6 cases with 1030-1100 concurrently pending writers (1 in flight, 1024 queued, the rest blocked on the full queue) ended by Close / write-side / read-side budget exhaustion, every Write must return an error; exhaustive: every script of <= d dial outcomes after the first connection over {dial error, connect + handshake read fails, connect, connect with write capacity 1}, first connection of capacity 1 or 2, budget 1 or 2, both behaviours once the script is used up (dial errors / connections whose handshake fails for ever), around the fixed history: 3 queued writes of 3 writers, ping, pending Read resolved by a delivery, read failure, 2 more writes, Read, Close, write and Read after Close. random: budget 1-3 (0 = default 30 rarely), scripts of 1-11 outcomes incl. failing Dial, 5-16 events out of: batches of 1-4 concurrently pending writes of distinct writers (queue order fixed through the queue-length accessor), read failure while a write is in flight before / after the underlying connection recorded it (accept -> read failure -> redial completes -> Write returns nil), Close while a write is in flight with more queued, deliveries (data, ping, pong), read failures carrying every close status of the transport package (none/abrupt, going away, abnormal, internal error, plain closed; and the peer's normal close), write failures likewise, Read started / joined (pending across other events), Close (1/3 with the underlying CloseWithStatus returning an error, 1/5 of the cases with every plain underlying Close returning an error); then Close, write, Read; 1/4 of the cases with the read loop free to race the write loop's redial. non-trivial = some dial/handshake failure or write capacity in the script, a redial caused by it, and at least one write; distinct = distinct Coq case terms"
 	if err := w.Flush(*seed, *tier, rule, false, nil); err != nil {
 		fmt.Fprintln(os.Stderr, err)
 		os.Exit(2)
